@@ -44,7 +44,7 @@ def pool(chk, mdl):
     return out
 
 def run(chk):
-    extra = tuple(x for x in ("C08text", "C08rel") if os.path.exists(os.path.join(lib.COQ, "Props", x + ".v")))
+    extra = tuple(x for x in ("C08text", "C08rel", "C08all") if os.path.exists(os.path.join(lib.COQ, "Props", x + ".v")))
     proofs = lib.check_proofs(PID, extra_props=extra)
     exes = lib.build_impl(); mdl = lib.build_model()
     fnd = lib.Findings(PID)
